@@ -45,7 +45,7 @@ func c17Gen(t *rapid.T) c17Case {
 	hosts := []string{"evil.com", "evil.com/", "evil.com/profile/", vHostIdentity, vHostIdentity + ".evil.com", "user@evil.com", "evil.com:443", "", "profile/", "[::1]", "evil.com%2f"}
 	hi = rapid.IntRange(0, len(hosts)-1).Draw(t, "host")
 	host = hosts[hi]
-	tail := rapid.SampledFrom([]string{"", "", "/x", "?a=b", "#f", "/%2e%2e/", "/..", "\\x"}).Draw(t, "tail")
+	tail := rapid.SampledFrom([]string{"", "", "/x", "?a=b", "#f", "/%2e%2e/", "/..", "\\x", "?/../../a", "?/../../../a", "#/../../a", "#top", "?x#y", "?/.."}).Draw(t, "tail")
 	c.Dest = c17Prefixes[pi] + host + tail
 	mut := rapid.IntRange(0, 13).Draw(t, "mut")
 	switch mut {
@@ -201,4 +201,9 @@ func TestVerifC17Redirects(t *testing.T) {
 // stream of the generator of TestVerifC17Redirects, with the same oracle.
 func FuzzVerifC17Redirects(f *testing.F) {
 	vRunFuzz(f, "native coverage-guided fuzzing of the entropy stream of the TestVerifC17Redirects generator (rapid.MakeFuzz); same case structure, oracle, non-trivial rule and distinctness rule as TestVerifC17Redirects", c17Gen, c17Check)
+}
+
+func init() {
+	// dot segments and percent-encoded separators in front of the host text
+	c17Prefixes = append(c17Prefixes, "/./\\", "/.//", "/x/../\\", "/x/..//", "/%2f", "/%2F", "/%5C", "/%5c/", "/%09/", "/%0a/")
 }
